@@ -886,6 +886,47 @@ def _messages(repo, rep):
                     "scoping in render and filler functions")
 
 
+def translate_skips_none(repo, rep, rule="R10.6"):
+    """None is 'no value' (the attribute / the content is dropped): the
+    value-translating fragment must not hand it to the translation
+    function, whose answer (a str for most translators) would be written"""
+    m = repo.modules["chameleon.compiler"]
+    frag = None
+    for n in m.tree.body:
+        if isinstance(n, ast.Assign) and isinstance(n.targets[0], ast.Name) \
+                and n.targets[0].id == "emit_translate" and \
+                isinstance(n.value, ast.Call):
+            for k in n.value.keywords:
+                if k.arg == "source":
+                    try:
+                        frag = (n, ast.parse(textwrap.dedent(
+                            repo.fold(k.value, m))))
+                    except (NotConst, SyntaxError):
+                        frag = None
+    if frag is None:
+        raise AnalysisError("emit_translate fragment not found")
+    tree = frag[1]
+    for x in ast.walk(tree):
+        for ch in ast.iter_child_nodes(x):
+            ch._parent = x
+    calls = [c for c in ast.walk(tree) if isinstance(c, ast.Call)
+             and src(c.func) == "translate"]
+    ok = bool(calls)
+    for c in calls:
+        gs = [(src(P._cond(t_, True, None)[1]),
+               P._cond(t_, True, None)[2] == v_)
+              for t_, v_ in L.guards_of(c, tree)
+              if not isinstance(t_, ast.ExceptHandler)]
+        if not (L.cond_holds(gs, "target is None", False) or
+                L.cond_holds(gs, "target is not None", True, contains=True)):
+            ok = False
+    rep.check(ok, rule, COMP + "emit_translate", "a value of None is not "
+              "offered to the translation function (None means: drop the "
+              "attribute / write nothing)", construct="translate-skips-none",
+              where="%s:%d" % (m.relpath, frag[0].lineno),
+              detail="%d translate call(s)" % len(calls))
+
+
 def _attributes(repo, rep):
     f = repo.func("chameleon.zpt.program.MacroProgram."
                   "_create_attributes_nodes")
@@ -980,6 +1021,7 @@ def _attributes(repo, rep):
               "value, then translate(msgid = explicit id or the value, "
               "default = the value)", construct="emit-translate",
               where=L.where(g), detail=detail)
+    translate_skips_none(repo, rep)
     pa = repo.func("chameleon.i18n.parse_attributes")
     text = L.text(pa.node)
     rep.check("d[attr] = msgid" in text and "if attr in d:" in text, "R10.6",
